@@ -53,13 +53,43 @@ def run(ctx: Ctx):
         text = c04.write(r, nodes, offsets, [0])
         if r.random() < 0.12:
             # a str document may begin with U+FEFF (a BOM that survived decoding): it is a character of the parsed text like any other
-            lead = r.choice(["\ufeff", "\ufeff\n", "\u200b", "\x00"])
+            # ... and so are surrogate code points (a str can hold a pair, or a lone one) and astral characters: one character each
+            lead = r.choice(["\ufeff", "\ufeff\n", "\u200b", "\x00", "\ud83d\ude00", "a\ud83d\ude00\ud83d\ude00b", "\ud800", "\U0001F600", "\x93x\x94"])
             text = lead + text
             offsets = [o + len(lead) for o in offsets]
         store = r.random() < 0.75
         prev_text = None
+        enc = None
+        if r.random() < 0.25 and not any(0xD800 <= ord(ch) <= 0xDFFF for ch in text):
+            # bytes input in a declared encoding: the parsed text is the decoded document, character for character (characters the
+            # encoding lacks are swapped, one for one, for characters it has - among them the Windows-1252 "smart quote" range)
+            enc = r.choice(["utf-8", "windows-1252", "iso-8859-1", "iso-8859-2", "koi8-r", "utf-16-le", "windows-1252"])
+            pool = {"utf-8": "é☃“”", "windows-1252": "\u201c\u201d\u2018\u2019\u20ac\u2026é", "iso-8859-1": "\x93\x94\x80é\xa0",
+                    "iso-8859-2": "\x93\x94ł\xa0", "koi8-r": "я─", "utf-16-le": "é☃“\U0001F600"}[enc]
+            def fit(ch):
+                try:
+                    ch.encode(enc)
+                    return ch if (ord(ch) < 128 or r.random() < 0.5) else r.choice(pool)
+                except UnicodeEncodeError:
+                    return r.choice(pool)
+            text = "".join(fit(ch) for ch in text)
+            if text[:1] == "\ufeff":
+                text = "x" + text[1:]          # a byte order mark is detection's business (C07), not a character of the parsed text
         try:
-            if r.random() < 0.2:
+            if enc is not None:
+                from bs4 import BeautifulSoup
+                import warnings as _w
+                data = text.encode(enc)
+                assert data.decode(enc) == text
+                with _w.catch_warnings():
+                    _w.simplefilter("ignore")
+                    soup = BeautifulSoup(data, "html.parser", from_encoding=enc, multi_valued_attributes=None,
+                                         **({} if store else {"store_line_numbers": False}))
+                if (soup.original_encoding or "").lower() != enc:
+                    ctx.count("bytes:declared-encoding-not-used")
+                    continue
+                ctx.count("bytes-input:" + enc)
+            elif r.random() < 0.2:
                 # one builder INSTANCE parsing document after document (as unpickling or a long-lived application does):
                 # positions must not carry over from the previous document
                 from bs4 import BeautifulSoup
@@ -93,7 +123,7 @@ def run(ctx: Ctx):
             got = (t.sourceline, t.sourcepos)
             if got != want:
                 ctx.violation(f"<{t.name}> written at offset {off}: sourceline/sourcepos {got}, true position {want}",
-                              case={"text": text, "store": store, "offset": off, "previous_document_same_builder": prev_text},
+                              case={"text": text, "store": store, "offset": off, "previous_document_same_builder": prev_text, "bytes_in": enc},
                               expected=want, observed=got, stream="written")
                 break
         if store and offsets:
@@ -147,9 +177,13 @@ def replay(path):
         b = HTMLParserTreeBuilder(multi_valued_attributes=None, **({} if c.get("store", True) else {"store_line_numbers": False}))
         BeautifulSoup(c["previous_document_same_builder"], builder=b)
         soup = BeautifulSoup(c["text"], builder=b)
+    elif c.get("bytes_in"):
+        from bs4 import BeautifulSoup
+        soup = BeautifulSoup(c["text"].encode(c["bytes_in"]), "html.parser", from_encoding=c["bytes_in"], multi_valued_attributes=None,
+                             **({} if c.get("store", True) else {"store_line_numbers": False}))
     else:
         soup = c04.real_parse(c["text"], {} if c.get("store", True) else {"lines": 0})
-    print("text:", repr(c["text"]))
+    print("text:", repr(c["text"]), "given as bytes in", c.get("bytes_in"))
     for t in tags_in_order(soup):
         print(f"  <{t.name}> sourceline={t.sourceline} sourcepos={t.sourcepos}")
     print("expected for the reported tag:", v.get("expected"), "observed:", v.get("observed"))
